@@ -328,20 +328,7 @@ func sortStringsByName(a []string) {
 // GenTopLevel: the progen generator used at top level: helper declarations, then statements
 func GenTopLevel(r *RNG, depth int) (stmts []string, globals []string, feat map[string]bool) {
 	g := &PG{r: r, budget: 30, feat: map[string]bool{}}
-	g.w("func idx(k int) int {\n\tprintln(\"idx\", k)\n\treturn k %% 3\n}\n")
-	g.w("const KA = 7\n")
-	g.w("const KB = KA*2 + 1\n")
-	g.w("var fuel = 80\n")
-	g.w("type T struct {\n\tA int\n\tB int\n}\n")
-	g.w("func (t *T) Sum(k int) int {\n\treturn t.A + t.B*k\n}\n")
-	g.w("func (t *T) Inc() {\n\tt.A++\n\tt.B += 2\n}\n")
-	g.w("func (t *T) Vsum(k int, xs ...int) int {\n\ts := t.A * k\n\tfor _, x := range xs {\n\t\ts += x\n\t}\n\treturn s + len(xs)\n}\n")
-	g.w("func add(a int, b int) int {\n\treturn a + b\n}\n")
-	g.w("func isOdd(a int) bool {\n\treturn a%%2 != 0\n}\n")
-	g.w("func pair2(a int, b int) (int, int) {\n\treturn b, a + 1\n}\n")
-	g.w("func tri(a int) (int, int, int) {\n\treturn a, a + 1, a + 2\n}\n")
-	g.w("func halfF(n int) float64 {\n\tif n > 100000 {\n\t\treturn 3\n\t}\n\treturn 1\n}\n")
-	g.w("func wrapB(n int) byte {\n\treturn 250\n}\n")
+	g.prelude() // (the same declarations as whole programs get; each is one top-level statement)
 	// locals of other numeric types at the same frame offsets in functions called one after the other: a local
 	// initialised from an untyped constant has its own type whatever an earlier call left in that stack cell
 	g.w("func scaleF(f float64) float64 {\n\tg2 := f * 2.0\n\tvar b2 byte = 200\n\tb2 += 100\n\treturn g2 + float64(b2)\n}\n")
@@ -425,7 +412,7 @@ func GenTopLevel(r *RNG, depth int) (stmts []string, globals []string, feat map[
 			continue
 		}
 		cur = append(cur, line)
-		depthB += strings.Count(line, "{") - strings.Count(line, "}")
+		depthB += strings.Count(line, "{") - strings.Count(line, "}") + strings.Count(line, "(") - strings.Count(line, ")")
 		if depthB == 0 {
 			stmts = append(stmts, strings.Join(cur, "\n"))
 			cur = nil
@@ -483,6 +470,9 @@ func (c *Ctx) c18Rich(n int) {
 		if it == 0 {
 			c.Rep.Sample(map[string]any{"rich_program": stmts})
 		}
+	}
+	if bad := c.Rep.Dist["rich-whole-error"]; bad*10 > n {
+		c.Rep.Notes = append(c.Rep.Notes, fmt.Sprintf("generator health: %d of %d rich programs failed as a whole and were skipped", bad, n))
 	}
 }
 
